@@ -296,7 +296,7 @@ def correspond(ctx, exe, n_objects, n_oracle, n_inst):
                     impl_w2.append(('RAISE', type(e).__name__))
             else: impl_w2.append(None)
             ptexts.append(text)
-            if nhang > 30:
+            if nhang > max(30, n_objects // 25):
                 ctx.log('the reader did not return on %d of the first %d objects: remaining objects are not run' % (nhang, k + 1))
                 descs = descs[:k + 1]
                 break
@@ -488,15 +488,18 @@ def run(ctx):
                 '3-digit exponents of both signs, zeros, rounding ties, carries into a longer exponent), porosity / permeabilities / nseq-nadd present or absent, '
                 'timing x reset, num_variables given or not; distinct by the full description; non-trivial when it has at least one block')
     ctx.trusted += ['Coq 8.16.1 kernel (coqc); vm_compute for the finite obligations over the regenerated table and the examples',
-                    'translators tools/translate/tables.py and pyfun.py (AST, fail-closed)',
+                    'translators tools/translate/tables.py and pyfun.py (AST, fail-closed); the AST reader of padstring\'s default length in tools/props/C13.py',
                     'hand model coq/C13/InconIO.v of t2incon.read/write and Base/Fmt.v, Base/FixedFormat.v, Model/Fortran.v, Base/PyNum.v (validated by the correspondence runs of this check, not verified against CPython)',
                     'coq/C13/Num.v nearest: model of strtod (round-half-even to binary64 with gradual underflow), run against float() on every check',
                     "Python's text I/O (splitting a file into lines with universal newlines, joining written lines) is outside the model",
-                    'extraction: ExtrOcamlBasic + ExtrOcamlString, OCaml 4.13.1, ocaml/main.ml']
+                    'extraction: ExtrOcamlBasic + ExtrOcamlString, OCaml 4.13.1, ocaml/main.ml; the driver is run with the stack limit lifted (own runner in tools/props/C13.py)']
     ctx.assumptions += ['attribute values are Python floats / ints / None and 5-character ASCII names; nan and inf can be read by the model but not written (outside the %-formatting model)',
                         'every block of a set has the same number of variables and num_variables, when given, is that number (the file format does not record it)',
-                        'the value-level facts (the Fortran reader applied to the formatted field returns the double nearest the value rounded to the printed digits; formatting that double again gives the same text) '
-                        'are decidable hypotheses of the theorems, evaluated on every generated object by the extracted model; they are the classical 15-significant-digit round trip of binary64, not proved here']
+                        'read(write i) = canon i is proved from wf_fits (structure + every value fits its field) with no field-level hypothesis; that canon rounds to exactly q decimals '
+                        'additionally uses that Fmt.sci prints q+1 mantissa digits (C02 correspondence, not proved)',
+                        'write(canon i) = write i (second file byte-identical) assumes per field that formatting the re-read double reproduces the text (idem_hyp: the 15-significant-digit '
+                        'round trip of binary64, decidable, NOT proved): those theorems are named _partial; the hypothesis is evaluated by the extracted model on generated objects and the byte '
+                        'identity by the oracle on the implementation']
     ctx.stage()
     lap(ctx, 'staged')
     ok = translate(ctx)
